@@ -2,7 +2,7 @@
 CHECK = {
     "pkg": ".", "files": ["root/fwref_test.go", "root/c17_test.go"], "run": "^TestC17",
     "quick": {"scale": 1, "shards": 1, "timeout": 600},
-    "thorough": {"scale": 15, "shards": 8, "timeout": 1800},
+    "thorough": {"scale": 30, "shards": 8, "timeout": 1800},
     "rule": "histories of 4-24 packets through ONE firewall (one conntrack table, one routine-local ConntrackCache used by half "
             "the calls) shared by 1-3 peers built like the handshake code builds them (vpnAddrs + buildNetworks); addresses drawn "
             "freely from: node addresses, other hosts in the node's networks, node/peer unsafe networks, every peer's certified "
